@@ -172,8 +172,10 @@ def inventory(plat, c, l, k, flavour, triple=False):
                 labels.append("Unknown")      # one path for every out-of-range byte
         sx.observe("labels", list(labels))
         # published rows are taken from the copy; rows added since are accepted as they are
+        # (names and keypad codes are the library's to choose: taken from the current table where the row exists)
         D = {k: (v[0], v[1], v[3]) for k, v in GeckoConstants.DEVICES.items()}
-        D.update(DEVICE_TABLE)
+        for k_, row in DEVICE_TABLE.items():
+            D[k_] = (D[k_][0], D[k_][1], row[2]) if k_ in D else row
         exp = fe.expected_devices(labels, all_devices, user_demands, D)
         exp_p = [d for d in exp if D[d][2] == "PUMP"]
         exp_b = [d for d in exp if D[d][2] == "BLOWER"]
